@@ -171,6 +171,7 @@ func runCase(rt *rapid.T) {
 	endSlot := uint64(nEpochs) * spe
 	claimed := map[uint64]bool{}
 	failures, slowdowns, lookAheads := 0, 0, 0
+	calm := rapid.IntRange(0, 2).Draw(rt, "calmBeaconNode") == 0
 	var otherUsers sync.WaitGroup
 	var script []string
 	for s := startSlot; s < endSlot+1; s++ {
@@ -184,7 +185,11 @@ func runCase(rt *rapid.T) {
 			claimed[s] = true
 		}
 		qcancel()
-		switch rapid.IntRange(0, 9).Draw(rt, "fault") {
+		faultDraw := rapid.IntRange(0, 9).Draw(rt, "fault")
+		if calm && faultDraw < 2 {
+			faultDraw = 4 // a calm run has no beacon errors or delays, only other users of the duties cache
+		}
+		switch faultDraw {
 		case 0:
 			ep := rapid.SampledFrom([]string{"attester", "proposer", "sync", "validators"}).Draw(rt, "failEndpoint")
 			n := rapid.IntRange(1, 3).Draw(rt, "failCount")
@@ -218,10 +223,22 @@ func runCase(rt *rapid.T) {
 				defer otherUsers.Done()
 				cctx, ccancel := context.WithTimeout(context.Background(), 40*slotDur)
 				defer ccancel()
+				// like the validator API, the other user rewrites what it was handed (it swaps the public key
+				// for the node's public share before answering its validator client)
 				if kind == "proposer" {
-					_, _ = dc.ProposerDutiesCache(cctx, ep, idx)
+					if r, err := dc.ProposerDutiesCache(cctx, ep, idx); err == nil {
+						for _, d := range r.Duties {
+							d.PubKey[0], d.PubKey[1] = 0xde, 0xad
+							d.Slot += 1000
+						}
+					}
 				} else {
-					_, _ = dc.AttesterDutiesCache(cctx, ep, idx)
+					if r, err := dc.AttesterDutiesCache(cctx, ep, idx); err == nil {
+						for _, d := range r.Duties {
+							d.PubKey[0], d.PubKey[1] = 0xde, 0xad
+							d.CommitteeIndex += 50
+						}
+					}
 				}
 			}()
 			lookAheads++
@@ -247,6 +264,36 @@ func runCase(rt *rapid.T) {
 		if r.Endpoint == "sync" && r.OK {
 			if _, ok := resolvedAt[r.Epoch]; !ok {
 				resolvedAt[r.Epoch] = r.At
+			}
+		}
+	}
+	// A run in which the beacon node answered every call at once and without error leaves the scheduler no
+	// excuse: every epoch whose first slot was ticked must have been resolved by the end of that slot.
+	if failures == 0 && slowdowns == 0 {
+		for e := startSlot/spe + 1; e*spe < endSlot; e++ {
+			first := e * spe
+			if _, tickedFirst := ticked[first]; !tickedFirst {
+				continue
+			}
+			someActive := false
+			for _, v := range cluster {
+				if activeIn(v, eth2p0.Epoch(e)) && (e == 0 || activeIn(v, eth2p0.Epoch(e-1))) {
+					someActive = true // active when the epoch is resolved (one slot early) and throughout it
+				}
+			}
+			if !someActive {
+				continue // nothing to resolve: the scheduler makes no duty calls for an epoch without active validators
+			}
+			at, ok := resolvedAt[eth2p0.Epoch(e)]
+			limit := genesis.Add(time.Duration(first+1) * slotDur)
+			if !ok || at.After(limit) {
+				var recs []string
+				for _, r := range bn.Records {
+					if uint64(r.Epoch) == e {
+						recs = append(recs, fmt.Sprintf("%s ok=%v at slot %.2f", r.Endpoint, r.OK, float64(r.At.Sub(genesis))/float64(slotDur)))
+					}
+				}
+				rt.Fatalf("UNRESOLVED: the duties of epoch %d were not resolved by the end of its first slot although the beacon node answered every call without error or delay (resolved: %v; beacon calls for that epoch %v; script %v)", e, ok, recs, script)
 			}
 		}
 	}
@@ -365,7 +412,7 @@ func runCase(rt *rapid.T) {
 	nontrivial := (failures > 0 || skipped > 0 || lifecycle) && boundary
 	sort.Strings(ts)
 	vstat.Case(fmt.Sprintf("%d/%d/%d/%d|%v|%v", spe, nEpochs, nCluster, startSlot, script, strings.Join(ts, ",")), nontrivial,
-		cls("failed_resolution", failures > 0), cls("slow_beacon", slowdowns > 0), cls("skipped_slot", skipped > 0), cls("activation_or_exit", lifecycle), cls("foreign_leak", bn.LeakForeign && nForeign > 0), cls("beacon_assigns_inactive_cluster_validators", inactiveAssigned), cls("other_duties_cache_user", lookAheads > 0), cls("complete_slots_checked", complete > 0))
+		cls("failed_resolution", failures > 0), cls("slow_beacon", slowdowns > 0), cls("skipped_slot", skipped > 0), cls("activation_or_exit", lifecycle), cls("foreign_leak", bn.LeakForeign && nForeign > 0), cls("beacon_assigns_inactive_cluster_validators", inactiveAssigned), cls("other_duties_cache_user", lookAheads > 0), cls("calm_beacon_node", calm), cls("complete_slots_checked", complete > 0))
 	vstat.Count("triggers", int64(len(trigs)))
 	vstat.Count("complete_duties_checked", int64(complete))
 	if nontrivial && skipped > 0 && vstat.WantSample("skipped") {
